@@ -180,8 +180,10 @@ func c02Exhaustive(w *World, n *ServerNode, devs []*Device) {
 	const alpha = 12
 	total := alpha + alpha*alpha + alpha*alpha*alpha + alpha*alpha*alpha*alpha
 	per := 300
-	start := (w.C.Int("block", (total+per-1)/per)) * per
+	block := w.C.Int("block", (total+per-1)/per)
+	start := block * per
 	w.Probe("nontrivial")
+
 	now := Slot()
 	base := now - 430
 	for k := 0; k < per && start+k < total; k++ {
@@ -222,6 +224,8 @@ func c02Exhaustive(w *World, n *ServerNode, devs []*Device) {
 	}
 	w.Probe("c02.exhaustive-block")
 	c02Surfaces(w, n, devs)
+	// Counted only when the block ran to its end.
+	w.Probe(fmt.Sprintf("c02.block.%02d", block))
 }
 
 // checkSurfaces compares the public surfaces (live statistics, sync bitfield)
